@@ -1,4 +1,4 @@
-/* E3 (BOUNDED stand-in, never counted as proof): one fixed call sequence (VC_S0..VC_S7, chosen by
+/* E3 (BOUNDED stand-in, never counted as proof): one fixed call sequence (VC_OP0..VC_OP7, chosen by
  * the runner) is executed against the real parser and against the reference cursor of
  * spec/ref_binson.h on ALL valid documents of exactly VC_N bytes (optionally over the byte
  * alphabet VC_ALPHA) on which the sequence is protocol-following according to the reference
@@ -161,29 +161,77 @@ static void step(int op)
 #endif
 }
 
-#ifndef VC_S0
-#define VC_S0 OP_NONE
+#ifndef VC_OP0
+#define VC_OP0 OP_NONE
 #endif
-#ifndef VC_S1
-#define VC_S1 OP_NONE
+#ifndef VC_OP1
+#define VC_OP1 OP_NONE
 #endif
-#ifndef VC_S2
-#define VC_S2 OP_NONE
+#ifndef VC_OP2
+#define VC_OP2 OP_NONE
 #endif
-#ifndef VC_S3
-#define VC_S3 OP_NONE
+#ifndef VC_OP3
+#define VC_OP3 OP_NONE
 #endif
-#ifndef VC_S4
-#define VC_S4 OP_NONE
+#ifndef VC_OP4
+#define VC_OP4 OP_NONE
 #endif
-#ifndef VC_S5
-#define VC_S5 OP_NONE
+#ifndef VC_OP5
+#define VC_OP5 OP_NONE
 #endif
-#ifndef VC_S6
-#define VC_S6 OP_NONE
+#ifndef VC_OP6
+#define VC_OP6 OP_NONE
 #endif
-#ifndef VC_S7
-#define VC_S7 OP_NONE
+#ifndef VC_OP7
+#define VC_OP7 OP_NONE
+#endif
+#ifndef VC_OP8
+#define VC_OP8 OP_NONE
+#endif
+#ifndef VC_OP9
+#define VC_OP9 OP_NONE
+#endif
+#ifndef VC_OP10
+#define VC_OP10 OP_NONE
+#endif
+#ifndef VC_OP11
+#define VC_OP11 OP_NONE
+#endif
+#ifndef VC_OP12
+#define VC_OP12 OP_NONE
+#endif
+#ifndef VC_OP13
+#define VC_OP13 OP_NONE
+#endif
+#ifndef VC_OP14
+#define VC_OP14 OP_NONE
+#endif
+#ifndef VC_OP15
+#define VC_OP15 OP_NONE
+#endif
+#ifndef VC_OP16
+#define VC_OP16 OP_NONE
+#endif
+#ifndef VC_OP17
+#define VC_OP17 OP_NONE
+#endif
+#ifndef VC_OP18
+#define VC_OP18 OP_NONE
+#endif
+#ifndef VC_OP19
+#define VC_OP19 OP_NONE
+#endif
+#ifndef VC_OP20
+#define VC_OP20 OP_NONE
+#endif
+#ifndef VC_OP21
+#define VC_OP21 OP_NONE
+#endif
+#ifndef VC_OP22
+#define VC_OP22 OP_NONE
+#endif
+#ifndef VC_OP23
+#define VC_OP23 OP_NONE
 #endif
 #ifndef VC_MD
 #define VC_MD 3
@@ -212,6 +260,9 @@ void h_nav(void)
     int why;
     __CPROVER_assume(ref_verify(buf, VC_N, VC_ROOT_ARRAY, VC_MD, &why));
     nm[0] = nondet_uchar(); nm[1] = nondet_uchar();
+#ifdef VC_NM0
+    nm[0] = VC_NM0; nm[1] = VC_NM1;        /* pinned lookup names */
+#endif
     for (size_t i = 0; i < VC_N; i++) { vc_wit[i] = buf[i]; }
     binson_state *st = malloc(VC_MD * sizeof(binson_state));
     __CPROVER_assume(st != NULL);
@@ -227,8 +278,9 @@ void h_nav(void)
 #endif
     __CPROVER_assert(ok, "init accepts a valid document");                                                                                   /*@ B/nav-init */
     ref_cursor_init(&rc, buf, VC_N, VC_ROOT_ARRAY);
-    step(VC_S0); step(VC_S1); step(VC_S2); step(VC_S3); step(VC_S4); step(VC_S5); step(VC_S6); step(VC_S7);
-#ifdef VC_NO_LIB
+    step(VC_OP0); step(VC_OP1); step(VC_OP2); step(VC_OP3); step(VC_OP4); step(VC_OP5); step(VC_OP6); step(VC_OP7); step(VC_OP8); step(VC_OP9); step(VC_OP10); step(VC_OP11);
+    step(VC_OP12); step(VC_OP13); step(VC_OP14); step(VC_OP15); step(VC_OP16); step(VC_OP17); step(VC_OP18); step(VC_OP19); step(VC_OP20); step(VC_OP21); step(VC_OP22); step(VC_OP23);
+#if defined(VC_NO_LIB) || defined(VC_DOC)
     __CPROVER_assert(0, "vacuity control: some valid document of this length admits the whole sequence");
 #endif
 }
